@@ -68,7 +68,7 @@ def distinct_zone_files():
     return out
 
 
-AWKWARD = ["Europe/Dublin", "Africa/Casablanca", "Pacific/Kiritimati", "Africa/Monrovia", "America/Sao_Paulo",
+AWKWARD = ["America/Adak", "Europe/Dublin", "Africa/Casablanca", "Pacific/Kiritimati", "Africa/Monrovia", "America/Sao_Paulo",
            "Asia/Kathmandu", "Australia/Lord_Howe", "America/New_York", "Europe/London", "Pacific/Apia",
            "Antarctica/Troll", "Asia/Pyongyang", "America/Caracas", "Europe/Lisbon", "UTC", "Asia/Tokyo"]
 
@@ -141,8 +141,15 @@ def h_utc(name, path, clauses):
     UTC = tz.UTC
     types = dict(u=int)
 
+    import copy
+    z0 = z
+
     def fn(ctx, u):
         ctx.assume(S.within(u, lo, hi))
+        z = copy.copy(z0)            # per-path object: state a zone might keep between queries must not leak across paths
+        if "c06" in clauses:
+            # history: a wall-clock query with the SAME number first -- answers must not depend on earlier queries
+            tsdt.mk(ctx, u, z).utcoffset()
         dt = tsdt.mk(ctx, u, z)
         wall = z.fromutc(dt)
         w = tsdt.ts_of(wall)
@@ -192,8 +199,12 @@ def h_wall(name, path):
             terms.append((off, ok))
         return terms
 
+    import copy
+    z0 = z
+
     def fn(ctx, w):
         ctx.assume(S.within(w, lo + 200000, hi - 200000))
+        z = copy.copy(z0)
         naive = tsdt.mk(ctx, w)
         pre = preimages(w)
         count = S.add(*[S.b2i(ok) for (_o, ok) in pre]) if pre else 0
